@@ -254,6 +254,9 @@ func c10Jobs(thorough bool) []c10Job {
 	for _, n := range names {
 		src := corpus[n]
 		n := n
+		if !thorough && len(src) > 3000 {
+			continue // quick: the one large example (flow_checking.mg) is left to the thorough tier
+		}
 		jobs = append(jobs, c10Job{"corpus-" + n + " intact+truncations", func(probe func(kind, input string)) {
 			probe("unit", src)
 			step := 1
@@ -454,6 +457,6 @@ func c10(r *rt.Run) {
 	})
 	r.Extra["states"] = r.Get("evaluations")
 	r.Finish("(a) every token string of length <= k over a 49-token alphabet (k=3 quick, 4 thorough) and k+1 over a 29-token alphabet, offered to Unit/Clause/Term/LiteralOrFormula/PredicateName/Atom/BaseTerm; " +
-		"(b) every single-token deletion/duplication/replacement, every truncation and byte substitution of 19 valid sources (examples/*.mg + 3 inline); (c) every string <= 4 over 10 characters through ast.Unescape; " +
+		"(b) every single-token deletion/duplication/replacement, every truncation and byte substitution of 19 valid sources (examples/*.mg + 3 inline; the quick tier leaves out the 9 KB flow_checking.mg); (c) every string <= 4 over 10 characters through ast.Unescape; " +
 		"(d) line deletions/duplications/blankings/replacements, digit replacements and truncations of 6 fact files, plain/gzip/zstd; units that parse go on to AnalyzeAndCheckBounds and EvalProgram under a fact limit; non-trivial = inputs that parse as a unit")
 }
